@@ -1,0 +1,19 @@
+//! Verification-only facade (compiled only with `--cfg libp2p_verif`). No logic of its own.
+
+use std::{future::Future, io, time::Duration};
+
+use futures::{AsyncRead, AsyncWrite};
+
+/// The future that forwards bytes between the two legs of a relayed circuit.
+pub fn copy_future<S, D>(
+    src: S,
+    dst: D,
+    max_circuit_duration: Duration,
+    max_circuit_bytes: u64,
+) -> impl Future<Output = io::Result<()>>
+where
+    S: AsyncRead + AsyncWrite + Unpin,
+    D: AsyncRead + AsyncWrite + Unpin,
+{
+    crate::copy_future::CopyFuture::new(src, dst, max_circuit_duration, max_circuit_bytes)
+}
